@@ -311,7 +311,12 @@ func (s *Scope) findDeclared(name []byte, skipForDeclared bool) *Var {
 
 // findUndeclared finds an undeclared variable in the current and contained scopes.
 func (s *Scope) findUndeclared(name []byte) *Var {
-	for _, v := range s.Undeclared {
+	for i, v := range s.Undeclared {
+		if i < int(s.NumArgUses) && v.Decl == NoDecl {
+			// skip the uses in function arguments (or the for statement initializer): in `function f(a=b){b; var b}`
+			// the b of the body is not the b of the default value
+			continue
+		}
 		// no need to evaluate v.Link as v.Data stays the same and Link is nil in the active scope
 		if 0 < v.Uses && bytes.Equal(name, v.Data) {
 			return v
